@@ -162,6 +162,11 @@ def gen_decimal(rnd):
               "12E-1", "0.00100000", "9.99999999"]
     if rnd.random() < 0.6:
         return Decimal(rnd.choice(shapes))
+    if rnd.random() < 0.12:
+        # more significant digits than the default decimal context keeps (28): built from text, hence exact
+        nd = rnd.randint(29, 40)
+        digits = rnd.choice("123456789") + "".join(rnd.choice("0123456789") for _ in range(nd - 2)) + rnd.choice("123456789")
+        return Decimal(digits + "E-" + str(rnd.randint(nd - 12, nd + 4)))
     digits = "".join(rnd.choice("0123456789") for _ in range(rnd.randint(1, 14))).lstrip("0") or "1"
     exp = rnd.randint(-12, 3)
     d = Decimal(digits).scaleb(exp)
